@@ -508,3 +508,42 @@ func RunApalache(module, init, inv string, length int, timeout time.Duration) (o
 	}
 	return false, out, fmt.Errorf("apalache-mc: %v: %s", runErr, tail(out, 800))
 }
+
+var reProved = regexp.MustCompile(`All (\d+) obligations? proved`)
+
+// RunTLAPM checks the proofs of spec/<module>.tla with the TLA+ proof system in a scratch directory (all modules of
+// spec/ are copied next to it). ok = every obligation proved; n = number of obligations.
+func RunTLAPM(module string, timeout time.Duration) (ok bool, n int, out string, err error) {
+	dir, err := os.MkdirTemp("", "vtlapm")
+	if err != nil {
+		return false, 0, "", err
+	}
+	defer os.RemoveAll(dir)
+	files, _ := filepath.Glob(filepath.Join(Root(), "spec", "*.tla"))
+	for _, f := range files {
+		bs, err := os.ReadFile(f)
+		if err != nil {
+			return false, 0, "", err
+		}
+		if err := os.WriteFile(filepath.Join(dir, filepath.Base(f)), bs, 0o644); err != nil {
+			return false, 0, "", err
+		}
+	}
+	ctx, cancel := context.WithTimeout(context.Background(), timeout)
+	defer cancel()
+	cmd := exec.CommandContext(ctx, "tlapm", "--threads", "8", module+".tla")
+	cmd.Dir = dir
+	bs, runErr := cmd.CombinedOutput()
+	out = string(bs)
+	if ctx.Err() != nil {
+		return false, 0, out, fmt.Errorf("tlapm timed out")
+	}
+	if m := reProved.FindStringSubmatch(out); m != nil {
+		fmt.Sscan(m[1], &n)
+		return true, n, out, nil
+	}
+	if strings.Contains(out, "obligations failed") || strings.Contains(out, "obligation failed") {
+		return false, 0, out, nil
+	}
+	return false, 0, out, fmt.Errorf("tlapm: %v: %s", runErr, tail(out, 800))
+}
